@@ -352,20 +352,27 @@ def parse_mk(body):
 # driver
 # ---------------------------------------------------------------------------------------------
 
-def shape(instrs):
-    return [re.sub(r"\s+", " ", re.sub(r"%\d+|%%?\w+|\$?-?\b\d+\b", "_", t)).split()[0] for t in instrs]
+def mnemonics(instrs):
+    out = []
+    for t in instrs:
+        w = t.split()
+        m = w[0]
+        if m.endswith(":"):
+            out.append("L")
+        elif m.startswith("call"):
+            out.append("call " + re.sub(r"@PLT$", "", w[1]) if len(w) > 1 else "call")
+        else:
+            out.append(re.sub(r"[ql]$", "", m) if m not in ("call",) else m)
+    return out
 
 
 def match_decl(site, decls):
-    cands = [d for d in decls if d["file"] == site["file"] and d["line"] == site["line"]]
-    if len(cands) <= 1:
-        return cands[0] if cands else None
-    tgt = [t.split()[1] for t in site["text"] if t.startswith("call")]
-    for d in cands:
-        dt = [re.sub(r"@PLT$", "", t.split()[1]) for t in d["template"] if t.startswith("call")]
-        if dt == [re.sub(r"@PLT$", "", x) for x in tgt] and len(d["template"]) == len(site["text"]):
-            return d
-    return None
+    """the asm statement of the preprocessed source that this compiler-output statement comes from:
+    same file and line, same sequence of mnemonics and call targets (None if there is no such)"""
+    want = mnemonics(site["text"])
+    cands = [d for d in decls if d["file"] == site["file"] and d["line"] == site["line"]
+             and mnemonics(d["template"]) == want]
+    return cands[0] if cands else None
 
 
 def translate(outdir, opts):
